@@ -59,6 +59,8 @@ def main(argv, tier, base_seed):
         maxdev = 0.0
         rel = {"isotropy_checked": 0, "axis_perm_checked": 0}
         reuse = 0
+        inter = 0
+        aborted = {}
         samples = []
         max_tasks = 0
         for s in seeds:
@@ -85,6 +87,9 @@ def main(argv, tier, base_seed):
             for k in rel:
                 rel[k] += r["rel"][k]
             reuse += r.get("reuse_chain_steps", 0)
+            inter += r.get("interleaved_lists_checked", 0)
+            for k, v in (r.get("aborted_requests") or {}).items():
+                aborted[k] = aborted.get(k, 0) + v
             if r["stats"]["three_level_chains"] > 0:
                 nontrivial.add(r["world_digest"])
             if len(samples) < 3:
@@ -151,7 +156,10 @@ def main(argv, tier, base_seed):
                 "simulated_time": "none: no clock in cij; time = monitor's event sequence number; events: %d" % agg["events"],
                 "monitor_events": agg, "max_tasks_in_one_request": max_tasks, "strain_kinds": kinds, "history_sizes": sizes,
                 "max_request_dependence_over_scale": maxdev, "ride_along_relations": rel, "reused_list_chain_steps_checked": reuse,
-                "faults": "none: the task scheduler does no I/O; the simulated quantifier is the request history",
+                "interleaved_task_lists_checked": inter,
+                "faults": {"kind": "cancel: an earlier request on the same calculator is cancelled at its k-th cij line event and abandoned; the requests that follow "
+                                   "must still equal their singleton references (the scheduler does no I/O, so no I/O fault applies)",
+                           "fired_by_site": dict(sorted(aborted.items())), "fired": sum(v for k, v in aborted.items() if k != "finished-before-the-cut")},
                 "real_components": ["cij.core.calculator.Calculator + qha (calculator worlds)", "cij/core/tasks.py", "cij/core/phonon_contribution/shear.py", "nonshear.py", "cij/util/voigt.py", "networkx", "numpy"],
                 "stubs": ["duck-typed calculator holding arrays (stub worlds)", "input files written by cijsim.world (calculator worlds)"], "world_kinds": wkinds,
                 "known_finding_hits": {k: c for k, (_, c) in known_hits.items()}, "harness_errors": harness[:20],
